@@ -747,7 +747,11 @@ def c14(ctx, rep):
     # the AS map is read with every number the pattern can match (same list), parent directories exist before the output is opened
     from .checks_pipe import import_clauses, c16 as _c16
     from . import checks_rx as _rx
-    import_clauses(ctx, rep, "C14", "C11", _rx.c11, ("C11.map-built", "C11.map-writers", "C11.map-immutable", "C11.map-lookup"))
+    import_clauses(ctx, rep, "C14", "C11", _rx.c11, ("C11.map-built", "C11.map-writers", "C11.map-immutable", "C11.map-lookup", "C11.interval"))  # the map's values are strings (re.sub rejects anything else)
+    import_clauses(ctx, rep, "C14", "C06", _rx.c06, ("C06.ipv6-parse-call", "C06.ipv4-drop-zeros-call"))  # the matched text is parsed as matched: what the pattern accepts the parser accepts
+    from . import checks_ip as _ip
+    from .ipmodel import IpModel as _IpModel
+    _ip._gate_content(ctx, _IpModel(ctx), rep, "C14")  # the gate is total on every integer the pattern can produce (membership per network of its own family, no comparison across families)
     import_clauses(ctx, rep, "C14", "C16", _c16, ("C16.mkdirs-guard",), required=False)  # absent when the directory creation is written out in place (then C16's other clauses apply)
     # ---- 9 containment
     from .checks_pipe import _per_file_body
@@ -796,18 +800,21 @@ def _k3(ctx, rep, fns, av, k_counts):
         for path in fp.paths:
             if not path.feasible():
                 continue
+            stored = []  # (mapping, key) written so far on this path, outside loops
             for e, ls in walk_effects(path.effects):
                 if e.kind == "subscript" and e.maybe:
                     continue  # conditionally evaluated: scanned with its short-circuit context via the enclosing term
                 for t in (e.a, e.b, e.c):
                     if isinstance(t, tuple):
-                        terms.append((t, path, e.node))
+                        terms.append((t, path, e.node, tuple(stored)))
+                if e.kind == "store_sub" and not ls:
+                    stored.append((strip_mut(e.a), e.b))
             if path.result and isinstance(path.result[1], tuple):
-                terms.append((path.result[1], path, path.result[2]))
+                terms.append((path.result[1], path, path.result[2], tuple(stored)))
             for t, pol, node in path.conds:
                 if isinstance(t, tuple):
-                    terms.append((t, path, node))
-        for t, path, node in terms:
+                    terms.append((t, path, node, ()))
+        for t, path, node, stored in terms:
             for s, extra in _subs_with_context(t, []):
                 idx = s[2]
                 if isinstance(idx, tuple) and idx and idx[0] == "slice":
@@ -818,6 +825,8 @@ def _k3(ctx, rep, fns, av, k_counts):
                 ok, why = _k3_discharge(ctx, f, s, base, idx, atoms, av)
                 if not ok and not extra and path.entails(("compare", ("in",), (idx, base)), True):
                     ok, why = True, "the path conditions entail `key in mapping`"
+                if not ok and not extra and (base, idx) in stored:
+                    ok, why = True, "the entry was stored under this key earlier on the same path (memo: store, then read back)"
                 if key in seen and ok:
                     continue
                 seen.add(key)
@@ -1253,6 +1262,19 @@ def _codec_structure(ctx, rep, NUM_ALPHA, EXTRA, ENCODING, fixedc):
         for nme, (pre, posts) in l2.carried.items():
             if pre == ("const", "") and pv is not None and posts and all(x[0] == "binop" and x[1] == "+" and x[2] == ("carried", nme, l2.uid) for x in posts):
                 acc_ok = True
+        if not acc_ok and pv is not None:
+            # pieces collected in a list and joined once: "".join(out) with out.append(<emitted character>) per gap
+            r_ = path.returned()
+            acc2 = getattr(l2, "accumulates", {}) or {}
+            for nme, comp_ in acc2.items():
+                if comp_[0] == "comp" and comp_[1] == "list" and M.is_call(r_) and r_[1] == ("attr", ("const", ""), "join") and len(r_[2]) == 1 and strip_mut(r_[2][0]) in (comp_, ("list", ())) :
+                    acc_ok = True
+            if not acc_ok and M.is_call(r_) and r_[1] == ("attr", ("const", ""), "join") and len(r_[2]) == 1 and r_[2][0][0] == "comp" and r_[2][0][1] == "list":
+                acc_ok = True
+            for nme, (pre, posts) in l2.carried.items():
+                if pre == ("list", ()) and posts and all(x[0] == "mut" and x[1] == ("carried", nme, l2.uid) and x[2] == "append" and len(x[3]) == 1 for x in posts) \
+                        and M.is_call(r_) and r_[1] == ("attr", ("const", ""), "join") and r_[2] == (("loopout", nme, l2.uid),):
+                    acc_ok = True
         ok_emit = pv is not None and acc_ok and (strip_mut(l2.iter)[0] in ("list",) or (gaps_name is not None and strip_mut(l2.iter) == ("loopout", gaps_name, l1.uid)))
     rep.ob("C18.encode-greedy", "_gap_encode", ok_dec, "weights are walked from largest to smallest with // and %= on the same running value, gaps inserted at the front (greedy mixed-radix decomposition)", W(f_ge), key="C18.encode-greedy|_gap_encode")
     rep.ob("C18.encode-ring", "_gap_encode", ok_emit, "per gap the emitted character is NUM_ALPHA[(index(prev) + gap + 1) mod |alphabet|], prev advancing to the emitted character, output accumulated in order", W(f_ge), key="C18.encode-ring|_gap_encode")
